@@ -159,6 +159,9 @@ func c01Property(t *rapid.T) {
 	var primary []*heightRecord
 	groupTxs, lifecycle := 0, 0
 	var queue []*blockSpec
+	var stepEp func(prev []*pb.Receipt) *blockSpec // episode whose next block depends on the receipts of the previous one
+	var lastRs []*pb.Receipt
+	lifeEpisodes := 0
 	proofEp, proofPid, proofEpisodes := -1, "", 0
 	for bi := 0; bi < nBlocks; bi++ {
 		var b *blockSpec
@@ -199,11 +202,22 @@ func c01Property(t *rapid.T) {
 			proofEpisodes = 1
 		} else if len(queue) > 0 {
 			b, queue = queue[0], queue[1:]
-		} else if rapid.IntRange(0, 3).Draw(t, "episode") == 0 {
-			ep := g.genGroupEpisode()
-			b, queue = ep[0], ep[1:]
+		} else if stepEp != nil {
+			if b = stepEp(lastRs); b == nil {
+				stepEp = nil
+				b = g.genBlock(8)
+			}
 		} else {
-			b = g.genBlock(8)
+			switch rapid.IntRange(0, 4).Draw(t, "episode") {
+			case 0:
+				ep := g.genGroupEpisode()
+				b, queue = ep[0], ep[1:]
+			case 1:
+				stepEp = g.lifecycleEpisode(&lifeEpisodes)
+				b = stepEp(nil)
+			default:
+				b = g.genBlock(8)
+			}
 		}
 		h := w.N.Height()
 		if _, err := w.N.ExecBlock(b.event(h + 1)); err != nil {
@@ -211,6 +225,7 @@ func c01Property(t *rapid.T) {
 		}
 		rs := checkExecuted(w.N, h, b, f)
 		g.observe(b, rs)
+		lastRs = rs
 		if proofEp == 1 {
 			proofPid = sim.ProposalID(rs[0])
 			if !rs[0].IsSuccess() || proofPid == "" {
@@ -378,6 +393,9 @@ func c01Property(t *rapid.T) {
 	if pipelinedBursts > 0 {
 		classes = append(classes, "replica-pipelined-bursts")
 	}
+	if lifeEpisodes > 0 {
+		classes = append(classes, "pause-resume-episode")
+	}
 	if proofEpisodes > 0 && proofEp == 4 {
 		classes = append(classes, "proof-dependency-episode")
 	}
@@ -389,6 +407,106 @@ func c01Property(t *rapid.T) {
 	st.AddExtra("replica_executions", nRep)
 	if nt != "" && st.WantSample() {
 		st.Sample(append([]string(nil), ops...))
+	}
+}
+
+// lifecycleEpisode pauses a chain's services through governance and resumes them (freeze + activate, an appchain
+// update that is approved or rejected, a rejected logout, a service frozen and activated), every step decided by real
+// votes, and ends with IBTPs from and to that chain. Whether those IBTPs are accepted must not depend on which replica
+// was restarted where between the pause and the IBTPs (stored records vs. the executor's in-memory service cache).
+// done counts the episodes that reached their IBTP block.
+func (g *histGen) lifecycleEpisode(done *int) func(prev []*pb.Receipt) *blockSpec {
+	t, w := g.t, g.w
+	c := rapid.SampledFrom([]string{"chainA", "chainB", "chainC"}).Draw(t, "lcChain")
+	mode := rapid.IntRange(0, 4).Draw(t, "lcMode")
+	own := sim.ChainAdmins[c]
+	sv := sim.StdServices[c][0]
+	step, pid := 0, ""
+	mk := func(txs ...*txSpec) *blockSpec {
+		w.TS += 10
+		return &blockSpec{txs: txs, ts: w.TS}
+	}
+	votes := func(approve bool) *blockSpec {
+		var txs []*txSpec
+		for a := 0; a < 3 && a < len(w.N.Admins); a++ {
+			txs = append(txs, &txSpec{tx: w.VoteTx(w.N.Admins[a], pid, approve), kind: "gov-vote", desc: fmt.Sprintf("episode: vote approve=%v on %s", approve, pid)})
+		}
+		return mk(txs...)
+	}
+	traffic := func() *blockSpec {
+		other := "chainA"
+		if c == "chainA" {
+			other = "chainB"
+		}
+		me, peer := sim.FullID(w.BxhID, c, sv), sim.FullID(w.BxhID, other, sim.StdServices[other][0])
+		proof := []byte("1")
+		var txs []*txSpec
+		for _, p := range [][2]string{{me, peer}, {peer, me}} {
+			idx := uint64(1)
+			if ic := w.Interchain(p[0]); ic != nil {
+				idx = ic.InterchainCounter[p[1]] + 1
+			}
+			k := own
+			if p[0] == peer {
+				k = sim.ChainAdmins[other]
+			}
+			ib := &pb.IBTP{From: p[0], To: p[1], Index: idx, TimeoutHeight: 0, Proof: sim.ProofHash(proof), Type: pb.IBTP_INTERCHAIN}
+			txs = append(txs, &txSpec{tx: w.IBTP(k, ib, proof), kind: "ibtp-req", desc: fmt.Sprintf("episode: IBTP %s->%s idx=%d after the pause/resume of %s", p[0], p[1], idx, c)})
+		}
+		*done++
+		return mk(txs...)
+	}
+	first := func() *txSpec {
+		switch mode {
+		case 0:
+			return &txSpec{tx: w.BVM(w.N.Admins[0], constant.AppchainMgrContractAddr, "FreezeAppchain", pb.String(c), pb.String("r")), kind: "gov-lifecycle", desc: "episode: FreezeAppchain " + c}
+		case 1, 2:
+			return &txSpec{tx: w.BVM(own, constant.AppchainMgrContractAddr, "UpdateAppchain", pb.String(c), pb.String("name-"+c), pb.String("desc-episode"), pb.Bytes(nil), pb.String(own.Addr.String()), pb.String("r")), kind: "gov-lifecycle", desc: "episode: UpdateAppchain " + c}
+		case 3:
+			return &txSpec{tx: w.BVM(own, constant.AppchainMgrContractAddr, "LogoutAppchain", pb.String(c), pb.String("r")), kind: "gov-lifecycle", desc: "episode: LogoutAppchain " + c + " (to be rejected)"}
+		default:
+			return &txSpec{tx: w.BVM(w.N.Admins[1], constant.ServiceMgrContractAddr, "FreezeService", pb.String(c+":"+sv), pb.String("r")), kind: "gov-lifecycle", desc: "episode: FreezeService " + c + ":" + sv}
+		}
+	}
+	return func(prev []*pb.Receipt) *blockSpec {
+		defer func() { step++ }()
+		switch step {
+		case 0:
+			return mk(first())
+		case 1:
+			if len(prev) == 0 || !prev[0].IsSuccess() {
+				return nil
+			}
+			if pid = sim.ProposalID(prev[0]); pid == "" {
+				return traffic() // concluded without a proposal (e.g. an update that needs no vote)
+			}
+			return votes(mode == 0 || mode == 1 || mode == 4)
+		case 2:
+			switch mode {
+			case 0:
+				return mk(&txSpec{tx: w.BVM(own, constant.AppchainMgrContractAddr, "ActivateAppchain", pb.String(c), pb.String("r")), kind: "gov-lifecycle", desc: "episode: ActivateAppchain " + c})
+			case 4:
+				return mk(&txSpec{tx: w.BVM(own, constant.ServiceMgrContractAddr, "ActivateService", pb.String(c+":"+sv), pb.String("r")), kind: "gov-lifecycle", desc: "episode: ActivateService " + c + ":" + sv})
+			}
+			return traffic()
+		case 3:
+			if mode != 0 && mode != 4 {
+				return nil
+			}
+			if len(prev) == 0 || !prev[0].IsSuccess() {
+				return nil
+			}
+			if pid = sim.ProposalID(prev[0]); pid == "" {
+				return traffic()
+			}
+			return votes(true)
+		case 4:
+			if mode != 0 && mode != 4 {
+				return nil
+			}
+			return traffic()
+		}
+		return nil
 	}
 }
 
